@@ -118,6 +118,7 @@ def run(F, R):
         s3b_send_always_submits(F, R, M, b, roles)
     s5_trait_writers(F, R, set(x['id'] for x in senders))
     s11_no_silent_consumption(F, R, usz)
+    s12_rewind_only_with_new_chunk(F, R, M, roles, usz)
     s7_reader_arithmetic(F, R, usz, list(bufs)[0] if len(bufs) == 1 else None, set(x['id'] for x in posters + finishers + direct_finishers))
     from .C19 import q6_no_access_after_post
     q6_no_access_after_post(F, R, M, roles, rule='S6', only=lambda bb: bb.get('impl_adt') == DRV or DRV in (bb.get('impl_self') or ''))
@@ -392,6 +393,30 @@ def s11_no_silent_consumption(F, R, usz):
         R.check(bad is None, 'S11', '%s:no-silent-consumption' % b['id'], fn_site(F, b['id']), 'cursor-advancing readers are called only where the bytes are returned',
                 bad or '')
     R.count('consumer_fns', len(consumers))
+
+
+def s12_rewind_only_with_new_chunk(F, R, M, roles, usz):
+    """The read cursor goes back to the start of the buffer only when a new chunk has just been taken off the receive queue: every
+    store of the constant 0 to a cursor / length field of the console (outside its constructor) is preceded, on every path, by a
+    pop_used in the same function.  A rewind anywhere else returns bytes that were already delivered a second time."""
+    n = 0
+    for b in sorted(F.bodies.values(), key=lambda x: x['id']):
+        if b.get('impl_adt') != DRV or not F.handwritten(b) or b['kind'] != 'AssocFn':
+            continue
+        sg = supergraph(F, b['id'], opaque=lambda t, bb: bb['id'] in roles or (bb.get('impl_adt') == DRV and bb['id'] != b['id']), tag='c15r')
+        S = sg.sym
+        pops = [c.id for c in sg.calls(lambda d: roles.get(d.get('fn')) == 'pop_used')]
+        for nd in sg.nodes:
+            if nd.kind != 'assign' or not nd.d['place']['p'] or not isinstance(nd.d['place']['p'][-1], dict) or nd.d['place']['p'][-1].get('n') not in usz:
+                continue
+            if fold_const(S.rvalue(nd.id, nd.d['rv'])) != 0:
+                continue
+            n += 1
+            ok = bool(pops) and sg.always_before(pops, nd.id)
+            R.check(ok, 'S12', '%s:%s:rewind-only-with-new-chunk' % (b['id'], nd.d['place']['p'][-1]['n']), site(sg, nd), 'the rewind follows a pop_used on every path',
+                    '%s resets `%s` to 0 on a path on which no new chunk was taken off the receive queue: bytes of the current chunk that were already '
+                    'returned are delivered again' % (b['name'], nd.d['place']['p'][-1]['n']))
+    R.count('rewind_sites', n)
 
 
 def s3b_send_always_submits(F, R, M, b, roles):
